@@ -122,6 +122,14 @@ def run(ctx):
             ctx.note("whole runs of this seed: %s = 0" % k)
     ctx.extra["domain_evidence"] = {k: v for k, v in sorted(ctx.counts.items())
                                     if k.split(":")[0] in ("case", "shared", "wholerun") or k.startswith("wholerun_")}
+    _end_arg_problem(ctx)
+
+
+def _end_arg_problem(ctx):
+    from harness.adapters import emission as E
+
+    for msg in E.END_ARG_PROBLEM:
+        ctx.broke("correspondence: summary end-date argument", msg)
 
 
 def replay(ctx, data):
